@@ -744,6 +744,45 @@ pub fn run_workload(sub: u64, only_leg: Option<&str>, acc: &mut Acc, ctx: &Ctx, 
         }
     }
 
+    // ---- stdout closed while a talkative preprocessor still has output to deliver ---------
+    // (the child survives the closed pipe, complains on stderr and exits 1: the run still ends
+    // with status 0, no diagnostic, and exactly the first k bytes)
+    if want("epipe-talkative-pre") && rng.chance(1, 6) {
+        let big = cwd.join("big");
+        let _ = std::fs::remove_dir_all(&big);
+        std::fs::create_dir_all(&big).unwrap();
+        let mut c = vec![];
+        let mut i = 0;
+        while c.len() < 200_000 + rng.below(200_000) {
+            c.extend_from_slice(format!("line {i} of a large file with foo in every line, padded to some length\n").as_bytes());
+            i += 1;
+        }
+        std::fs::write(big.join("b.txt"), &c).unwrap();
+        std::fs::write(big.join("c.txt"), b"foo in a small file\n").unwrap();
+        let mode: &[&str] = [&["-n"][..], &["--json"][..], &["-c"][..], &["--heading", "-n"][..]][rng.below(4)];
+        let args: Vec<String> = ["--no-config", "--color=never", "-j1", "--sort=path", "--pre", "/verif/target/release/childstub"].iter().chain(mode.iter()).map(|s| s.to_string()).chain(["foo".to_string(), "big".to_string()]).collect();
+        let env = vec![("CHILDSTUB_TALKATIVE".to_string(), "1".to_string())];
+        let full = ctx.run(&cwd, &RunSpec { args: args.clone(), plan: vec!["noop=1".into()], env: env.clone(), ..RunSpec::default() }, 60);
+        acc.evals += 1;
+        let timed = mode == ["--json"];
+        let n = if timed { mask_times(&full.stdout).len().saturating_sub(400).max(1) } else { full.stdout.len() };
+        for k in [0, 1 + rng.below(60), rng.below(n.max(1)), rng.below(n.max(1))] {
+            let spec = RunSpec { args: args.clone(), plan: vec![format!("stdout_budget={k}")], env: env.clone(), ..RunSpec::default() };
+            let got = ctx.run(&cwd, &spec, 60);
+            acc.evals += 1;
+            digest = digest_out_opt(digest, &got, !timed);
+            if got.fired("epipe") == 0 {
+                continue;
+            }
+            acc.faults.inc("stdout-EPIPE-while-a-talkative-preprocessor-still-writes");
+            let prefix_ok = got.stdout.len() == k.min(full.stdout.len()) && (timed || full.stdout.starts_with(&got.stdout));
+            if got.code != 0 || !got.stderr.is_empty() || !prefix_ok {
+                acc.violation("C15", "epipe-with-talkative-preprocessor", format!("rg {:?}: stdout closed after {k} bytes while the preprocessor still had output to deliver: exit {} stderr {:?} stdout {} bytes", args, got.code, show(&got.stderr), got.stdout.len()), sub, replay_body(sub, &w, "epipe-talkative-pre", &spec, Some(&full), &got, json!({"k": k})));
+            }
+        }
+        let _ = std::fs::remove_dir_all(&big);
+    }
+
     // ---- flag wiring: a flag followed by its negation is no flag; the last one wins ------
     if want("flag-wiring") && rng.chance(1, 2) {
         // (positive spelling, negation); the negation restores the default
